@@ -256,6 +256,8 @@ pub fn run_case(
         sites: vec![],
         rejected_by_linter: false,
     };
+    crate::watch::begin_run(plan);
+    let _watch = crate::watch::Guard;
     let mut fs = initial_store(history);
     let mut model_store: BTreeMap<String, Vec<u8>> = fs.snapshot();
     for (pi, sc) in history.programs.iter().enumerate() {
